@@ -75,6 +75,20 @@ CONSTANTS = {
         # TrackedWrite::write_all delegates to the inner write_all and counts the whole buffer
         ("SHAPE_TRACKED_WRITE_ALL", "parquet/src/file/writer.rs",
          r"fn write_all\(&mut self, buf: &\[u8\]\) -> std::io::Result<\(\)> \{\s*self\.inner\.write_all\(buf\)\?;\s*self\.bytes_written \+= buf\.len\(\);.*?(\d+)", "int"),
+        # ---- SerializedFileWriter keeps track of an unfinished row group (sticky failure)
+        # on_close: bloom filters are written BEFORE the row group is counted
+        ("SHAPE_ON_CLOSE_ORDER", "parquet/src/file/writer.rs",
+         r"let on_close = move \|buf,\s*mut metadata,(?:(?!row_groups\.push).)*?BloomFilterPosition::AfterRowGroup => \{\s*write_bloom_filters\(buf, row_bloom_filters, &mut metadata\)\?\s*\}"
+         r"(?:(?!row_groups\.push).)*?\}\s*row_groups\.push\(metadata\);\s*Ok\(\(\)\)\s*\};.*?(\d+)", "int"),
+        ("SHAPE_ASSERT_PREV_CLOSED", "parquet/src/file/writer.rs",
+         r"fn assert_previous_writer_closed\(&self\) -> Result<\(\)> \{\s*if self\.finished \{\s*return Err\(general_err!\(\"SerializedFileWriter already finished\"\)\);\s*\}"
+         r"\s*if self\.row_group_index != self\.row_groups\.len\(\) \{\s*Err\(general_err!\(\"Previous row group writer was not closed\"\)\)\s*\} else \{\s*Ok\(\(\)\)\s*\}\s*\}.*?(\d+)", "int"),
+        ("SHAPE_FINISH_ASSERTS", "parquet/src/file/writer.rs",
+         r"pub fn finish\(&mut self\) -> Result<ParquetMetaData> \{\s*self\.assert_previous_writer_closed\(\)\?;\s*let metadata = self\.write_metadata\(\)\?;\s*self\.buf\.flush\(\)\?;\s*Ok\(metadata\)\s*\}.*?(\d+)", "int"),
+        ("SHAPE_NEXT_RG_ASSERTS", "parquet/src/file/writer.rs",
+         r"pub fn next_row_group\(&mut self\) -> Result<SerializedRowGroupWriter<'_, W>> \{\s*self\.assert_previous_writer_closed\(\)\?;.*?(\d+)", "int"),
+        ("SHAPE_WRITE_METADATA_FINISHED", "parquet/src/file/writer.rs",
+         r"fn write_metadata\(&mut self\) -> Result<ParquetMetaData> \{\s*self\.finished = true;.*?(\d+)", "int"),
         # ---- IPC
         ("CONTINUATION_BYTE", _IL,
          r"const\s+CONTINUATION_MARKER\s*:\s*\[u8;\s*4\]\s*=\s*\[\s*(0x[0-9a-fA-F]+|\d+)\s*;\s*4\s*\]\s*;", "int"),
